@@ -11,6 +11,7 @@ PLAN.json (all optional):
                         inside output-file rewrites (counted over the whole run)
   count_write_events : bool   only count those events (written to after.json)
   break_mutator: {cls, method, mod, salt}  make a mutator raise on some nodes
+  break_apply  : {mod, salt}  make apply_simp raise for some candidates (inside the workers)
   fixpoint     : {spec, opts}  after main(): enumerate every proposal on the
                         result of strategy_hierarchical.reduce and evaluate it
   stop_after_accepts : n  raise KeyboardInterrupt after n accepted steps
@@ -285,6 +286,27 @@ def main():
                         return _o(self, node, *a, **k)
 
                     setattr(cls, meth, broken)
+
+    # --------------------------------------- failing apply / check in workers
+    ba = plan.get('break_apply')
+    if ba:
+        inner_apply_h = strategy_hierarchical.apply_simp
+        inner_apply_d = strategy_ddmin.apply_simp
+
+        def make_broken(inner):
+            def broken_apply(exprs, simp):
+                res = inner(exprs, simp)
+                try:
+                    h = vspec.mix(vspec.token_hash(refreader.flatten_top(model.to_plain(res))), ba['salt'])
+                except Exception:  # noqa
+                    h = 1
+                if h % ba['mod'] == 0:
+                    raise RuntimeError('injected apply failure')
+                return res
+            return broken_apply
+
+        strategy_hierarchical.apply_simp = make_broken(inner_apply_h)
+        strategy_ddmin.apply_simp = make_broken(inner_apply_d)
 
     # ------------------------------------------------------------ run
     t0 = time.time()
